@@ -181,6 +181,7 @@ func c09Run(tier string, idx int, r *Result) {
 			opts := defaultOpts()
 			opts.Limits = lim
 			opts.PollBudget = 400000
+			opts.Horizon = 40000000 // the step cap of the controlled run has to leave room for the long thorough programs
 			o := RunVM(p.a, opts)
 			r.Trans(1)
 			r.Outcome("vm:" + o.Class + kindSuffix(o.Kind))
@@ -259,6 +260,7 @@ func c09Run(tier string, idx int, r *Result) {
 			opts := defaultOpts()
 			opts.TreeLimit = cl
 			opts.PollBudget = 400000
+			opts.Horizon = 40000000 // the step cap of the controlled run has to leave room for the long thorough programs
 			o := RunTree(p.a, opts)
 			r.Trans(1)
 			r.Outcome("tree:" + o.Class + kindSuffix(o.Kind))
